@@ -593,27 +593,41 @@ Deliver(s) ==
 
 -----------------------------------------------------------------------------
 (* Connector updates: backend/connector_updates.go                            *)
-\* MessagesCreated / MessageMailboxesUpdated: the message is in exactly the mailboxes B afterwards
+\* effect of "message m is in exactly the mailboxes B": additions (in the order given) then removals
+BoxEffect(m, B) ==
+  LET addTo == {b \in B : ~HasMsg(rows[b], m)}
+      remFrom == {b \in Boxes \ B : HasMsg(rows[b], m)}
+      ab == AscBoxes(addTo)
+      rb == AscBoxes(remFrom)
+  IN [fits |-> \A b \in addTo : FitsLimits(b, rows[b], uidNext[b], 1),
+      rows |-> [b \in Boxes |->
+                  IF b \in addTo THEN Append(rows[b], [m |-> m, uid |-> uidNext[b], del |-> FALSE])
+                  ELSE IF b \in remFrom THEN RemoveMsgs(rows[b], {m}) ELSE rows[b]],
+      next |-> [b \in Boxes |-> IF b \in addTo THEN uidNext[b] + 1 ELSE uidNext[b]],
+      ever |-> [b \in Boxes |-> IF b \in addTo THEN ever[b] \cup {<<uidNext[b], m>>} ELSE ever[b]],
+      ups |-> [i \in 1..Len(ab) |-> ExistsU(ab[i], <<[m |-> m, uid |-> uidNext[ab[i]], f |-> flg[m]]>>, None)]
+              \o [i \in 1..Len(rb) |-> ExpungeU(rb[i], m)]]
+
+\* effect of "the shared flags of m are exactly F": one update per flag that changes, removals first
+FlagEffect(m, F) ==
+  LET remF == AscFlags(flg[m] \ F)
+      addF == AscFlags(F \ flg[m])
+  IN [flg |-> [flg EXCEPT ![m] = F],
+      ups |-> [i \in 1..Len(remF) |-> RemoteFlagU(m, "rem", {remF[i]})]
+              \o [i \in 1..Len(addF) |-> RemoteFlagU(m, "add", {addF[i]})]]
+
+\* MessagesCreated (m unknown) / MessageMailboxesUpdated (m known): the message is in exactly the mailboxes B
+\* afterwards.  Creation is explored with one mailbox here: with several, the code enqueues the per-mailbox
+\* Exists updates in map-iteration order, which no replay can steer.
 ConnSetBoxes(m, B) ==
-  \* creation (MessagesCreated) is explored with one mailbox here: with several, the code enqueues the
-  \* per-mailbox Exists updates in map-iteration order, which no replay can steer (C06 covers it)
   /\ m \notin dead
   /\ (m \in used \/ Cardinality(B) = 1)
-  /\ \A b \in B : HasMsg(rows[b], m) \/ FitsLimits(b, rows[b], uidNext[b], 1)
-  /\ LET addTo == {b \in B : ~HasMsg(rows[b], m)}
-         remFrom == {b \in Boxes \ B : HasMsg(rows[b], m)}
-         ab == AscBoxes(addTo)
-         rb == AscBoxes(remFrom)
-         addU == [i \in 1..Len(ab) |-> ExistsU(ab[i], <<[m |-> m, uid |-> uidNext[ab[i]], f |-> flg[m]]>>, None)]
-         remU == [i \in 1..Len(rb) |-> ExpungeU(rb[i], m)]
-     IN /\ rows' = [b \in Boxes |->
-                      IF b \in addTo THEN Append(rows[b], [m |-> m, uid |-> uidNext[b], del |-> FALSE])
-                      ELSE IF b \in remFrom THEN RemoveMsgs(rows[b], {m}) ELSE rows[b]]
-        /\ uidNext' = [b \in Boxes |-> IF b \in addTo THEN uidNext[b] + 1 ELSE uidNext[b]]
-        /\ ever' = [b \in Boxes |-> IF b \in addTo THEN ever[b] \cup {<<uidNext[b], m>>} ELSE ever[b]]
-        /\ used' = used \cup {m}
-        /\ dead' = dead /\ recd' = recd
-        /\ q' = EnqueueAll(addU \o remU)
+  /\ LET be == BoxEffect(m, B)
+     IN /\ be.fits
+        /\ rows' = be.rows /\ uidNext' = be.next /\ ever' = be.ever
+        /\ q' = EnqueueAll(be.ups)
+  /\ used' = used \cup {m}
+  /\ dead' = dead /\ recd' = recd
   /\ wire' = Quiet
   /\ Log("ConnSetBoxes", None, <<m, AscBoxes(B)>>, "OK")
   /\ UNCHANGED <<flg, sel, ro, snap, res, idle, mirror, taint>>
@@ -622,23 +636,64 @@ ConnSetBoxes(m, B) ==
 ConnSetBoxesRefused(m, B) ==
   /\ m \notin dead
   /\ (m \in used \/ Cardinality(B) = 1)
-  /\ \E b \in B : ~HasMsg(rows[b], m) /\ ~FitsLimits(b, rows[b], uidNext[b], 1)
+  /\ ~BoxEffect(m, B).fits
   /\ wire' = Quiet
   /\ Log("ConnSetBoxes", None, <<m, AscBoxes(B)>>, "ERR")
   /\ UNCHANGED <<rows, uidNext, flg, used, dead, recd, sel, ro, snap, res, q, idle, mirror, taint, ever>>
 
-\* MessageFlagsUpdated: the shared flags of m become exactly F; one update per flag that changes
+\* MessageFlagsUpdated: the shared flags of m become exactly F
 ConnSetFlags(m, F) ==
   /\ m \in used /\ F \subseteq SharedFlags
-  /\ LET remF == AscFlags(flg[m] \ F)
-         addF == AscFlags(F \ flg[m])
-         us == [i \in 1..Len(remF) |-> RemoteFlagU(m, "rem", {remF[i]})]
-               \o [i \in 1..Len(addF) |-> RemoteFlagU(m, "add", {addF[i]})]
-     IN /\ flg' = [flg EXCEPT ![m] = F]
-        /\ q' = EnqueueAll(us)
+  /\ LET fe == FlagEffect(m, F)
+     IN /\ flg' = fe.flg
+        /\ q' = EnqueueAll(fe.ups)
   /\ wire' = Quiet
   /\ Log("ConnSetFlags", None, <<m, AscFlags(F)>>, "OK")
   /\ UNCHANGED <<rows, uidNext, used, dead, recd, sel, ro, snap, res, idle, mirror, taint, ever>>
+
+\* MessageUpdated with an unchanged literal: flags, then mailboxes, in one transaction
+ConnUpdateSame(m, B, F) ==
+  /\ m \in used /\ F \subseteq SharedFlags
+  /\ LET fe == FlagEffect(m, F)
+         be == BoxEffect(m, B)
+     IN /\ be.fits
+        /\ flg' = fe.flg
+        /\ rows' = be.rows /\ uidNext' = be.next /\ ever' = be.ever
+        \* the Exists updates carry the flags as they are after the flag part
+        /\ q' = EnqueueAll(fe.ups \o [i \in 1..Len(be.ups) |->
+                                       IF be.ups[i].k = "Exists"
+                                       THEN [be.ups[i] EXCEPT !.items = <<[@[1] EXCEPT !.f = F]>>]
+                                       ELSE be.ups[i]])
+  /\ wire' = Quiet
+  /\ Log("ConnUpdateSame", None, <<m, AscBoxes(B), AscFlags(F)>>, "OK")
+  /\ UNCHANGED <<used, dead, recd, sel, ro, snap, res, idle, mirror, taint>>
+
+\* updates that must change nothing: duplicates, echoes, references to unknown or protected objects.
+\* status = what the connector must see acknowledged ("OK" = applied/ignored, "ERR" = error)
+BadKinds == {"Noop", "FlagsUnknownMsg", "BoxesUnknownMsg", "DeleteUnknownMsg", "CreateUnknownBox",
+             "BoxesIntoRecovery", "CreateIntoRecovery", "MailboxCreatedDup", "MailboxDeletedRecovery",
+             "MailboxDeletedUnknown", "MailboxUpdatedUnknown", "UpdatedUnknownNoCreate"}
+BadStatus(k) == IF k \in {"FlagsUnknownMsg", "BoxesUnknownMsg", "CreateUnknownBox", "BoxesIntoRecovery",
+                          "MailboxDeletedRecovery"} THEN "ERR" ELSE "OK"
+ConnBad(k) ==
+  /\ k \in BadKinds
+  /\ wire' = Quiet
+  /\ Log("ConnBad", None, <<k>>, BadStatus(k))
+  /\ UNCHANGED <<rows, uidNext, flg, used, dead, recd, sel, ro, snap, res, q, idle, mirror, taint, ever>>
+
+\* MessagesCreated again for a message that exists, with the mailboxes it is in: nothing happens
+ConnCreateDup(m) ==
+  /\ m \in used /\ (\E b \in Boxes : HasMsg(rows[b], m))
+  /\ wire' = Quiet
+  /\ Log("ConnCreateDup", None, <<m, AscBoxes({b \in Boxes : HasMsg(rows[b], m)})>>, "OK")
+  /\ UNCHANGED <<rows, uidNext, flg, used, dead, recd, sel, ro, snap, res, q, idle, mirror, taint, ever>>
+
+\* MessageIDChanged: the remote id of m changes; nothing a client can observe
+ConnIDChanged(m) ==
+  /\ m \in used
+  /\ wire' = Quiet
+  /\ Log("ConnIDChanged", None, <<m>>, "OK")
+  /\ UNCHANGED <<rows, uidNext, flg, used, dead, recd, sel, ro, snap, res, q, idle, mirror, taint, ever>>
 
 \* MessageDeleted: removed from every mailbox (the entity is only marked deleted)
 ConnDelete(m) ==
@@ -702,6 +757,10 @@ Free ==
   \/ "ConnSetBoxes" \in Acts /\ \E m \in Msgs : \E B \in SUBSET Boxes : ConnSetBoxes(m, B) \/ ConnSetBoxesRefused(m, B)
   \/ "ConnSetFlags" \in Acts /\ \E m \in Msgs : \E F \in ConnFlagSets : ConnSetFlags(m, F)
   \/ "ConnDelete" \in Acts /\ \E m \in Msgs : ConnDelete(m)
+  \/ "ConnUpdateSame" \in Acts /\ \E m \in Msgs : \E B \in SUBSET Boxes : \E F \in ConnFlagSets : ConnUpdateSame(m, B, F)
+  \/ "ConnBad" \in Acts /\ \E k \in BadKinds : ConnBad(k)
+  \/ "ConnCreateDup" \in Acts /\ \E m \in Msgs : ConnCreateDup(m)
+  \/ "ConnIDChanged" \in Acts /\ \E m \in Msgs : ConnIDChanged(m)
 
 (* after MaxSteps free steps a simulated behaviour is driven to quiescence:    *)
 (* leave IDLE, deliver everything, then NOOP wherever responders are queued    *)
